@@ -283,4 +283,77 @@ theorem mplsEncode_congr (a b : MPLS) (h : MPLSEquiv a b) : a.encode = b.encode 
   obtain ⟨h1, h2, h3, h4⟩ := h
   unfold MPLS.encode; rw [h1, h2, h3, h4]
 
+/-! ## 6. MPLS label stacks of any depth -/
+
+/-- The bytes of a label stack (outermost first) over a payload. -/
+def mplsFrame : List MPLS → Bytes → Bytes
+  | [], p => p
+  | l :: tl, p => putBe32 l.encode ++ mplsFrame tl p
+
+/-- A label stack entry as the decoder returns it: same fields, Contents = its four bytes,
+    Payload = everything behind it. -/
+def mplsLayerOf (l : MPLS) (pl : Bytes) : MPLS :=
+  { contents := putBe32 l.encode, payload := pl, label := l.label, trafficClass := l.trafficClass,
+    stackBottom := l.stackBottom, ttl := l.ttl }
+
+/-- The layers a label stack decodes to. -/
+def mplsDecoded : List MPLS → Bytes → List AnyLayer
+  | [], _ => []
+  | l :: tl, p => .mpls (mplsLayerOf l (mplsFrame tl p)) :: mplsDecoded tl p
+
+/-- SerializeLayers over a label stack: innermost entry first, each prepending its four bytes. -/
+def mplsSerStack : List MPLS → SBuf → SBuf
+  | [], b => b
+  | l :: tl, b => mplsSerBuf l (mplsSerStack tl b)
+
+theorem mplsSerStack_contents (ls : List MPLS) (b : SBuf) (h : Inv b) :
+    contents (mplsSerStack ls b) = mplsFrame ls (contents b) ∧ Inv (mplsSerStack ls b) := by
+  induction ls with
+  | nil => exact ⟨rfl, h⟩
+  | cons l tl ih =>
+    obtain ⟨c, i⟩ := ih
+    obtain ⟨c2, i2⟩ := mplsSerBuf_contents l (mplsSerStack tl b) i
+    exact ⟨by simp only [mplsSerStack, mplsFrame, c2, c], i2⟩
+
+theorem mplsFrame_length (ls : List MPLS) (p : Bytes) : (mplsFrame ls p).length = 4 * ls.length + p.length := by
+  induction ls with
+  | nil => simp [mplsFrame]
+  | cons l tl ih => simp only [mplsFrame, List.length_append, ih, List.length_cons, List.length_nil, putBe32]; omega
+
+/-- Eager decoding walks down a well-formed label stack of ANY depth: every entry whose S bit is
+    clear re-enters decodeMPLS on the rest; the layers come out in order with all fields intact. -/
+theorem mpls_stack_run (ls : List MPLS) (p : Bytes) (acc : RunOut) (fuel : Nat)
+    (hne : ls ≠ []) (hw : ∀ l ∈ ls, wfMPLS l) (hs : ∀ l ∈ ls.dropLast, l.stackBottom = false)
+    (hf : ls.length ≤ fuel) :
+    ∃ more, (runS fuel .mpls (mplsFrame ls p) acc).layers = acc.layers ++ mplsDecoded ls p ++ more := by
+  induction ls generalizing acc fuel with
+  | nil => exact absurd rfl hne
+  | cons l tl ih =>
+    have hwl : wfMPLS l := hw l (List.mem_cons_self)
+    have hstep : stepS .mpls (mplsFrame (l :: tl) p) = some
+        { beh := { acts := [.addLayer LayerTypeMPLS],
+                   tail := if l.stackBottom then .mplsPayload else .mplsFunc },
+          layer := some (.mpls (mplsLayerOf l (mplsFrame tl p))),
+          rest := mplsFrame tl p } := by
+      simp only [stepS, mplsFrame, mplsDecSpec_frame l (mplsFrame tl p) hwl, mplsLayerOf]
+    cases fuel with
+    | zero => simp at hf
+    | succ f =>
+      cases tl with
+      | nil =>
+        obtain ⟨more, hm⟩ := runS_step_layers f .mpls (mplsFrame [l] p) acc _ _ hstep rfl
+        exact ⟨more, by rw [hm]; simp only [mplsDecoded, mplsFrame, List.append_assoc, List.singleton_append]⟩
+      | cons l2 tl2 =>
+        have hsb : l.stackBottom = false := hs l (by simp [List.dropLast])
+        have hpos : (mplsFrame (l2 :: tl2) p).length ≠ 0 := by
+          rw [mplsFrame_length]; simp
+        rw [runS_next f .mpls _ acc _ _ .mpls hstep rfl hpos (by simp only [hsb, resolveS]; rfl)]
+        obtain ⟨more, hm⟩ := ih
+          { acc with acts := acc.acts ++ [Act.addLayer LayerTypeMPLS],
+                     layers := acc.layers ++ [AnyLayer.mpls (mplsLayerOf l (mplsFrame (l2 :: tl2) p))] }
+          f (by simp) (fun x hx => hw x (List.mem_cons_of_mem _ hx))
+          (fun x hx => hs x (by simp only [List.dropLast]; exact List.mem_cons_of_mem _ hx))
+          (by simp only [List.length_cons] at hf ⊢; omega)
+        exact ⟨more, by rw [hm]; simp only [mplsDecoded, List.append_assoc, List.singleton_append, List.cons_append, List.nil_append]⟩
+
 end Gp.Ppp
